@@ -10,12 +10,13 @@ UC == U("@c:s1", S1)
 UA == U("@a:s1", S1)    \* actor
 UB == U("@b:s1", S1)    \* target
 
-NoTpi == [present |-> FALSE, signed |-> FALSE, hasmxid |-> FALSE, hastoken |-> FALSE, mxid |-> NoUser, token |-> "", sigok |-> FALSE]
+NoTpi == [present |-> FALSE, signed |-> FALSE, hasmxid |-> FALSE, hastoken |-> FALSE, mxid |-> NoUser, token |-> "", sigkey |-> ""]
 EmptyPL == [users_default |-> AbsentV, events_default |-> AbsentV, state_default |-> AbsentV, ban |-> AbsentV,
             redact |-> AbsentV, kick |-> AbsentV, invite |-> AbsentV,
             users |-> <<>>, events |-> <<>>, notifications |-> <<>>, userkeysvalid |-> TRUE]
 C0 == [membership |-> "absent", jauth |-> NoUser, tpi |-> NoTpi, hascreator |-> TRUE, creator |-> UC,
-       federate |-> TRUE, join_rule |-> "absent", pl |-> EmptyPL, redactsserver |-> ""]
+       federate |-> TRUE, join_rule |-> "absent", pl |-> EmptyPL, redactsserver |-> "",
+       tpikeys |-> [top |-> "k8", list |-> {"k7"}]]
 Ev(id, type, sender, haskey, key, c) ==
   [id |-> id, type |-> type, sender |-> sender, haskey |-> haskey, key |-> key, keyisuser |-> FALSE,
    target |-> NoUser, targetvalid |-> TRUE, prev |-> {"$p"}, auth |-> {"$create"}, roomserver |-> S1,
